@@ -36,6 +36,8 @@ pub struct Probe {
     pub remaining: Option<usize>,
     pub is_empty: bool,
     pub is_full: Option<bool>,
+    /// number of items seen by walking `iter()` (a different accessor path than `len()`)
+    pub iter_count: Option<usize>,
 }
 
 #[derive(Clone, Debug)]
@@ -708,6 +710,7 @@ impl<T: SizedShape, L: LenShape> Shape for FlatVec<T, L> {
             remaining: Some(self.remaining()),
             is_empty: self.is_empty(),
             is_full: Some(self.is_full()),
+            iter_count: None,
         })
     }
     fn cmp_with(&self, other_bytes: &[u8]) -> Option<(bool, Option<Ordering>)> {
@@ -793,6 +796,7 @@ impl<L: LenShape> Shape for FlatString<L> {
             remaining: Some(self.remaining()),
             is_empty: self.is_empty(),
             is_full: Some(self.is_full()),
+            iter_count: None,
         })
     }
     fn cmp_with(&self, other_bytes: &[u8]) -> Option<(bool, Option<Ordering>)> {
@@ -864,7 +868,7 @@ impl<T: Shape + ?Sized, L: LenShape> Shape for FlexVec<T, L> {
         }
     }
     fn probe(&self) -> Option<Probe> {
-        Some(Probe { len: self.len(), cap: None, remaining: None, is_empty: self.is_empty(), is_full: None })
+        Some(Probe { len: self.len(), cap: None, remaining: None, is_empty: self.is_empty(), is_full: None, iter_count: Some(self.iter().count()) })
     }
     fn op_self(&mut self, op: &Op) -> OpOut {
         match op {
